@@ -381,13 +381,11 @@ def plan_values(c, res, fn_dl, fn_new):
         why = 'fields other than dl_frequency of the channel are modified'
     if ok:
         val = term_of_operand(bf, fst[0][4].rv.ops[0])
-        dl = rules.defs_with_conditions(bf, val[1]) if val[0] == 'phi' else [(val, path_conditions(bf, fst[0][0]), fst[0][0])]
-        same = ('Eq', ('param', freq), ('field', ('phi', ch), 'frequency'))
-        same2 = ('Eq', same[2], same[1])
-        for dv, cs, bb in dl:
+        chf = ('field', ('phi', ch), 'frequency')
+        for dv, cs in rules.value_cases(bf, val, path_conditions(bf, fst[0][0])):
             if dv == ('agg', 'core::option::Option::Some', (('0', ('param', freq)),)):
                 continue
-            if dv == ('agg', 'core::option::Option::None', ()) and any(x[0] in (same, same2) and cond_true(x) for x in cs):
+            if dv == ('agg', 'core::option::Option::None', ()) and rules.implies_order(cs, '==', ('param', freq), chf):
                 continue
             ok = False
             why = 'dl_frequency := %s under %s' % (term_str(dv), [term_str(x[0]) for x in cs][-1:])
